@@ -159,6 +159,10 @@ class Runtime:
             return {key(x): val(x) for x in it}
         return {key(x): val(x) for x in it if cond(x)}
 
+    def dictcomp_star(self, it, key, val, cond):
+        """T6d with a tuple target: key / val / cond take the unpacked element"""
+        return self.dictcomp(it, lambda x: key(*x), lambda x: val(*x), None if cond is None else (lambda x: cond(*x)))
+
     def listcomp_star(self, it, elt, cond):
         """T6 with a tuple target: elt / cond take the unpacked element"""
         return self.listcomp(it, lambda x: elt(*x), None if cond is None else (lambda x: cond(*x)))
